@@ -96,7 +96,7 @@ def gen_set_case(rng, index):
                                   'object_files', 'copy_files']),
             'intermediate_dirs': rng.random() < 0.7,
             'backend': rng.choice(['make', 'ninja']),
-            'name': rng.choice(['t', 'out/t', 'ab', 'o/ab'])}
+            'name': rng.choice(['t', 'out/t', 'tgt', 'o/tgt'])}
 
 
 def script_for_pairs(pairs):
